@@ -3,6 +3,7 @@ package main
 // C02 — sam toPairAlign reconstructs each pairwise alignment losslessly.
 
 import (
+	"encoding/json"
 	"fmt"
 	"os"
 	"path/filepath"
@@ -527,13 +528,69 @@ func c02CLI(tier string, shard, nshard int, res *engine.JobResult) {
 	}
 }
 
+// ---- schedule layer (the --threads quantifier): every explored interleaving of the reader / align
+// workers / trim workers / re-ordering stage / writer must produce the model's pairs, in input order on
+// stdout; including executions in which one worker is stalled while the others run ahead.
+
+func c02SchedCases() []c02Case {
+	mk := func(n int, o c02Case) c02Case {
+		var recs []SamRec
+		for i := 0; i < n; i++ {
+			cig := [][]CigOp{{{'M', 6}}, {{'M', 2}, {'I', 2}, {'M', 4}}, {{'M', 4}, {'I', 2}, {'M', 2}}, {{'M', 2}, {'D', 2}, {'M', 2}}}[i%4]
+			recs = append(recs, SamRec{Name: fmt.Sprintf("q%02d", i), Pos: 1, Cigar: cig, Seq: seqByQueryIndex(cig, i)})
+		}
+		o.Ref, o.Recs, o.Threads, o.NoDiff = c02RefA, recs, 2, true
+		return o
+	}
+	return []c02Case{mk(4, c02Case{}), mk(4, c02Case{Start: 2, End: 5}), mk(4, c02Case{PairDir: true, OmitRef: true}), mk(70, c02Case{}), mk(70, c02Case{Start: 2, End: 5, Wrap: 3})}
+}
+
+func c02SchedScenarios() []Scenario {
+	var out []Scenario
+	for i, c := range c02SchedCases() {
+		call := c.call()
+		call.NCPU = 2
+		mode := "D2M1"
+		if len(c.Recs) > 20 {
+			mode = "D1M1"
+		}
+		out = append(out, Scenario{Name: fmt.Sprintf("topa-sched-%d/records%d", i, len(c.Recs)), Family: "topa-schedule", Call: call, Mode: mode})
+	}
+	return out
+}
+
+func c02SchedJudge(sc *Scenario, st *engine.Stats, res *engine.JobResult) {
+	var idx int
+	fmt.Sscanf(sc.Name, "topa-sched-%d/", &idx)
+	c := c02SchedCases()[idx]
+	exp := c02Expected(c)
+	for obs, n := range st.Outcomes {
+		ok := strings.HasPrefix(obs, "returned|err=false:|")
+		if ok {
+			var txt string
+			fmt.Sscanf(strings.TrimPrefix(obs, "returned|err=false:|"), "%q", &txt)
+			got, order, okp := c02Parse(c, txt)
+			ok = okp && len(order) == len(exp)
+			for i := 0; ok && i < len(exp); i++ {
+				pr := got[exp[i].Name]
+				ok = (c.PairDir || order[i] == exp[i].Name) && pr[1].Seq == exp[i].QRow && (c.OmitRef || pr[0].Seq == exp[i].RefRow) && wrapOK(pr[1].Widths, len(exp[i].QRow), c.Wrap)
+			}
+		}
+		if !ok {
+			res.Violate("topa:schedule-dependent-output", fmt.Sprintf("scenario %s: %d explored execution(s) do not produce every query's pair (in input order): %.400s", sc.Name, n, obs), schedCase{Scenario: *sc, Trace: st.FirstTrace[obs], Obs: obs})
+		} else {
+			res.Nontrivial += n
+		}
+	}
+}
+
 func init() {
 	layers := map[string]func(string, int, int, *engine.JobResult){"A": c02LayerA, "B": c02LayerB, "C": c02LayerC, "CLI": c02CLI, "H": c02LayerH}
 	register(&Prop{
 		ID:    "C02",
 		Level: "model_checking",
 		Rule: "bounded-exhaustive enumeration against a reference pairwise model plus an oracle-free differential (pair output minus reference-gap columns = --skip-insertions output = toMultiAlign --pad row). A: every valid single-record CIGAR over MIDNSHP=X, <=3 (thorough 4) operators of length 1-2, every POS on a 6-base reference; " +
-			"B: every master alignment over M/I/D with <=4 (thorough 5) operators at every POS on an 8-base reference, cut into 2 (thorough also 3) records at every cut point (adjacent, separated by up to 2 uncovered columns, or overlapping in one matching column), hard- and soft-clipped, both file orders; C: representative files x every window x omit-reference x skip-insertions x directory/stdout x wrap {off,1,3,L+3} x threads 1..3; H: every ordered pair of 6 option settings run one after the other into the same output directory. " +
+			"B: every master alignment over M/I/D with <=4 (thorough 5) operators at every POS on an 8-base reference, cut into 2 (thorough also 3) records at every cut point (adjacent, separated by up to 2 uncovered columns, or overlapping in one matching column), hard- and soft-clipped, both file orders; C: representative files x every window x omit-reference x skip-insertions x directory/stdout x wrap {off,1,3,L+3} x threads 1..3; H: every ordered pair of 6 option settings run one after the other into the same output directory; S (schedules): files of 4 and 70 queries with 2 workers, stdout / window / directory, under every execution with <=2 (70 queries: <=1) non-default scheduling choices plus the starvation family: every execution must produce the model's pairs in input order. " +
 			"A case is one query in one option setting; non-trivial = not a pure-M single record; each case generated once",
 		Assumptions: []string{
 			"'non-conflicting' records = disjoint reference intervals, or overlaps consisting of matching columns only; overlaps containing indels are not generated",
@@ -550,21 +607,35 @@ func init() {
 			if tier == "thorough" {
 				n = map[string]int{"A": 64, "B": 192, "C": 64, "CLI": 4, "H": 4}
 			}
+			sjobs, pre := planSched(c02SchedScenarios(), 1, c02SchedJudge)
+			jobs = append(jobs, sjobs...)
 			for _, l := range []string{"A", "C", "CLI", "H", "B"} {
 				for s := 0; s < n[l]; s++ {
 					jobs = append(jobs, fmt.Sprintf("%s:%d/%d", l, s, n[l]))
 				}
 			}
-			return jobs, nil
+			return jobs, pre
 		},
 		Exec: func(tier, job string) *engine.JobResult {
 			res := &engine.JobResult{}
 			defer func() { res.Transitions = res.States }()
 			if strings.HasPrefix(job, "case:") {
+				var scs schedCase
+				if err := json.Unmarshal([]byte(job[5:]), &scs); err == nil && scs.Scenario.Name != "" {
+					st := engine.NewStats()
+					_, obs := scs.Scenario.execFn()(scs.Trace)
+					st.Outcomes[obs] = 1
+					st.FirstTrace[obs] = scs.Trace
+					c02SchedJudge(&scs.Scenario, st, res)
+					return res
+				}
 				var c c02Case
 				mustJSON(job[5:], &c)
 				c02Check(c, res, false)
 				return res
+			}
+			if strings.HasPrefix(job, "{") {
+				return execSched(c02SchedScenarios(), job, c02SchedJudge)
 			}
 			parts := strings.SplitN(job, ":", 2)
 			var s, n int
